@@ -17,6 +17,7 @@ import (
 	"github.com/zenon-network/go-zenon/chain"
 	g "github.com/zenon-network/go-zenon/chain/genesis/mock"
 	"github.com/zenon-network/go-zenon/chain/nom"
+	"github.com/zenon-network/go-zenon/chain/store"
 	"github.com/zenon-network/go-zenon/common/types"
 	"github.com/zenon-network/go-zenon/rpc/api"
 	"github.com/zenon-network/go-zenon/vm/constants"
@@ -166,11 +167,16 @@ func runRace(rng *rand.Rand, n int, out *Out, _ []string) {
 		sc.Buffer(make([]byte, 1<<20), 16<<20)
 		for sc.Scan() {
 			line := sc.Text()
-			if strings.Contains(line, `"k":"oracle"`) && strings.Contains(line, "reader-sees-linked-chain") {
-				out.Oracle(false, "reader-sees-linked-chain", line)
+			if strings.Contains(line, `"k":"oracle"`) {
+				// a failing oracle of the child keeps its key
+				for _, key := range []string{"reader-sees-linked-chain", "held-pool-view-unchanged"} {
+					if strings.Contains(line, `"key":"`+key+`"`) {
+						out.Oracle(false, key, line)
+					}
+				}
 			}
 			if strings.Contains(line, `"k":"dist"`) {
-				for _, key := range []string{"oracle:reader-sees-linked-chain", "race:reader-observations", "race:writer-ops"} {
+				for _, key := range []string{"oracle:reader-sees-linked-chain", "oracle:held-pool-view-unchanged", "race:reader-observations", "race:writer-ops"} {
 					if j := strings.Index(line, `"`+key+`":`); j >= 0 {
 						var c int
 						fmt.Sscanf(line[j+len(key)+3:], "%d", &c)
@@ -214,6 +220,28 @@ func runRaceChild(rng *rand.Rand, n int, out *Out, _ []string) {
 				}
 				fr := nd.Ch.GetFrontierAccountStore(addr)
 				_ = fr.Identifier()
+				if w == 1 || w == 2 {
+					// a reader that holds the view it was given while the inserter goes on: read in full, wait, read again
+					id := fr.Identifier()
+					var hv store.Account = fr
+					if w == 2 && len(pool) > 1 {
+						id = pool[rand.Intn(len(pool))].Identifier() // a view of an earlier unconfirmed version
+						hv = nd.Ch.GetAccountStore(addr, id)
+					}
+					if hv != nil {
+						first := dumpAccount(hv)
+						time.Sleep(300 * time.Microsecond)
+						second := dumpAccount(hv)
+						same := first == second && hv.Identifier() == id
+						mu.Lock()
+						d := M{}
+						if !same {
+							d = M{"account": addr.String(), "block_height": U64(id.Height), "view_frontier_height": U64(hv.Identifier().Height), "difference": firstDiff(first, second)}
+						}
+						out.Oracle(same, "held-pool-view-unchanged", d)
+						mu.Unlock()
+					}
+				}
 				if w == 3 {
 					l, err := ledger.GetUnconfirmedBlocksByAddress(addr, 0, 50)
 					ok = ok && (err != nil || l.Count >= 0)
